@@ -102,15 +102,23 @@ def runAll (env : Env) (kind : Nat) : List Step → State → String × String
     (s!"{showRes kind r}[{showDev s'.dev}] " ++ a,
      seg.foldl (fun acc e => acc ++ " " ++ subTok e.sub ++ outTok e.out) "" ++ " ;" ++ t)
 
+/-- order token: first char = which handle `open` opens first, second char = which handle
+`close` closes first (`c` = control handle, `s` = stream handle) -/
+def orderOf (s : String) : Option (Bool × Bool) :=
+  match s.toList with
+  | [o, c] => if (o == 'c' || o == 's') && (c == 'c' || c == 's') then some (o == 'c', c == 'c') else none
+  | _ => none
+
 def handle : List String → String
-  | "run" :: xml :: mode :: kind :: faults :: ops =>
-    match xmlOf xml, kind.toNat?, faultsOf faults, ops.mapM stepOf with
-    | some xml, some kind, some fs, some sts =>
+  | "run" :: xml :: mode :: kind :: order :: faults :: ops =>
+    match xmlOf xml, kind.toNat?, orderOf order, faultsOf faults, ops.mapM stepOf with
+    | some xml, some kind, some (oc, cc), some fs, some sts =>
       if mode != "keep" && mode != "kill" then "bad-op" else
-      let env : Env := { plan := fun k => fs.contains k, xml := xml, stopFailKills := mode == "kill" }
+      let env : Env := { plan := fun k => fs.contains k, xml := xml, stopFailKills := mode == "kill",
+                         openCtrlFirst := oc, closeCtrlFirst := cc }
       let (a, t) := runAll env kind sts State.init
       a ++ "|" ++ t
-    | _, _, _, _ => "bad-op"
+    | _, _, _, _, _ => "bad-op"
   | _ => "bad-op"
 
 end Driver.C16
